@@ -133,7 +133,7 @@ pub fn eval_scope(case: &J) -> Outcome {
     let rels = world();
     let r = guarded(|| { let q = parse(sql).map_err(|e| e.to_string())?; Relation::try_from(QueryWithRelations::new(&q, &rels)).map_err(|e| e.to_string()) });
     match r {
-        Err((loc, msg)) => { out.tag("panic"); out.imp = json!("panic"); out.fail(&format!("C18/scope/panic/{}", site_file(&loc)), format!("{sql}: panic at {loc}: {msg}")); }
+        Err((loc, msg)) => { out.tag("panic"); out.imp = json!("panic"); out.fail(&format!("C18/scope/panic/{}", site(&loc, &msg)), format!("{sql}: panic at {loc}: {msg}")); }
         Ok(Err(e)) => { out.imp = json!("err"); if expect == "ok" || expect == "ok-merged" { out.tag("refused-unambiguous"); let _ = e; } }
         Ok(Ok(rel)) => {
             out.imp = json!("ok");
